@@ -8,7 +8,7 @@ rebuild <tunnels>          => <router> <proxies>        RebuildTunnels
 reload <tunnels>           => <router> <proxies>        config file rewritten + doReload
 unpublish <host>           => <router> <proxies>        UnpublishTunnel (RPC succeeds)
 wbegin <tunnels>           => <router> <proxies>        RebuildTunnels stopped between closeOutdatedProxies and buildRouter
-wend                       => <router> <proxies>        … released and run to completion
+wend <hosts|_>             => <router> <proxies>        … released and run to completion; hosts = connections that waited and are resolved now
 incoming <host> <seq|win>  => <obs> <router> <proxies>  one HTTP connection through handleIncomingDelegation
 diff <old> <new>           => <hostnames>               diffTunnels (stateless)
 ```
@@ -92,7 +92,10 @@ def step' (d : D) (toks : List String) (rhs : String) : D × Verdict :=
     match parseTunnels t with
     | some ts => let d' : D := ⟨wBegin d.s ts, addKeys d ts⟩; (d', cmp (dump d') rhs)
     | none => (d, .bad "wbegin args")
-  | ["wend"] => let d' : D := ⟨wEnd d.s, d.keys⟩; (d', cmp (dump d') rhs)
+  | ["wend", lateTok] =>
+    -- `late` = connections that waited for the lock: resolved right after the change (stepLocked)
+    let late := if lateTok = "_" then [] else lateTok.splitOn ","
+    let d' : D := ⟨(serveAll (wEnd d.s) late).1, late ++ d.keys⟩; (d', cmp (dump d') rhs)
   | ["unpublish", h] => let d' : D := ⟨unpublish d.s h, h :: d.keys⟩; (d', cmp (dump d') rhs)
   | ["incoming", h, _kind] =>
     let obs := (rhs.splitOn " ").headD ""
